@@ -35,6 +35,7 @@ type methodSet map[string]*ssa.Function
 // interpreter: state of one path execution.
 type interpreter struct {
 	prog               *ssa.Program
+	skipExt            *ssa.Function
 	globals            map[*ssa.Global]*value
 	mode               Mode
 	runtimeErrorString types.Type
@@ -454,6 +455,12 @@ func loc(fset *token.FileSet, pos token.Pos) string {
 	return " at " + fset.Position(pos).String()
 }
 
+// callBody lets an external fall through to the real body of the function it intercepts.
+func callBody(fr *frame, args []value) value {
+	fr.i.skipExt = fr.fn
+	return callSSA(fr.i, fr.caller, fr.callpos, fr.fn, args, nil)
+}
+
 func callSSA(i *interpreter, caller *frame, callpos token.Pos, fn *ssa.Function, args []value, env []value) value {
 	if i.mode&EnableTracing != 0 {
 		fmt.Fprintf(os.Stderr, "%sEntering %s\n", strings.Repeat(" ", i.depth), fn)
@@ -463,7 +470,9 @@ func callSSA(i *interpreter, caller *frame, callpos token.Pos, fn *ssa.Function,
 		// dependency initialisers are run lazily, on first touch of the package (ensureInit)
 		return nil
 	}
-	if ext := findExternal(fn); ext != nil {
+	if i.skipExt == fn {
+		i.skipExt = nil // an external asked for the function's own body (callBody)
+	} else if ext := findExternal(fn); ext != nil {
 		return ext(fr, args)
 	}
 	if fn.Parent() != nil {
